@@ -331,6 +331,23 @@ theorem refused_changes_nothing (s : Sys) (now : Int) (root id : Nat) (ends : In
     · simp [hc, hok] at h
     · simp [hc, hok]
 
+/-- **every_refusal_reported** (store level): `Set` answers `ErrLimited` exactly when it did not
+    admit — an accepted alert is listed and counted with the end time it was sent with; there is
+    no silent drop.  (`mem.Alerts.Put` turns the error into `alertmanager_alerts_limited_total`;
+    that step is observed by the engine, not modelled.) -/
+theorem every_refusal_reported (s : Sys) (now : Int) (root id : Nat) (ends : Int) :
+    ((s.set now root id ends).2 = true →
+        lookup (s.set now root id ends).1.alerts id = some ends ∧ lookup (s.set now root id ends).1.adm id = some ends) ∧
+    ((s.set now root id ends).2 = false → (s.set now root id ends).1 = s) := by
+  refine ⟨?_, refused_changes_nothing s now root id ends⟩
+  intro h
+  unfold Sys.set at h ⊢
+  by_cases hc : s.cap = 0
+  · simp [hc]
+  · by_cases hok : (aupsert s.bucket s.cap root now id ends).2 = true
+    · simp [hc, hok]
+    · simp [hc, hok] at h
+
 /-! ### F4: the pinned discipline (`IsStale` = last array slot expired) is unsafe -/
 
 /-- the heap array after admitting ends 1, 30, 2 is `[1, 30, 2]`: the last slot is not the latest -/
